@@ -216,6 +216,7 @@ func init() {
 		}
 		e.assume(e.tt.Or(conds...))
 		k := e.chooseAmong(conds, "Choose "+name)
+		e.chooseTrace = append(e.chooseTrace, fmt.Sprintf("%s=%d", name, k))
 		return e.goInt(k)
 	})
 	z("Assume", func(e *Engine, fr *frame, a []Value) Value {
@@ -299,6 +300,17 @@ func init() {
 			e.Observed = append(e.Observed, e.strArg(a[0], "Observe label")+"="+e.describe(a[1], 4))
 		}
 		return nil
+	})
+	z("BV256", func(e *Engine, fr *frame, a []Value) Value {
+		op := e.strArg(a[0], "BV256 op")
+		x := e.bigGet(a[1], "BV256")
+		var y bigV
+		if p, ok := a[2].(*Value); ok && p != nil {
+			y = e.bigGet(a[2], "BV256")
+		} else {
+			y = x
+		}
+		return e.newBig(e.bv256(op, x, y))
 	})
 	z("AllocReset", func(e *Engine, fr *frame, a []Value) Value {
 		e.allocLog = e.allocLog[:0]
@@ -683,4 +695,61 @@ func (e *Engine) freshResult(fn *ssa.Function) Value {
 		out[i] = mk(res.At(i).Type(), i)
 	}
 	return out
+}
+
+// bv256 evaluates an EVM word operation directly in the SMT-LIB theory of
+// 256-bit bit-vectors (the oracle of the computational opcodes).
+func (e *Engine) bv256(op string, xv, yv bigV) bigV {
+	if e.IntMode {
+		panic(unsupported{"zzverif.BV256 in int mode"})
+	}
+	tt := e.tt
+	x, y := tt.Extract(255, 0, xv.t), tt.Extract(255, 0, yv.t)
+	b := func(c *Term) *Term { return tt.Ite(c, tt.BVu(256, 1), tt.BVu(256, 0)) }
+	var r *Term
+	switch op {
+	case "add":
+		r = tt.BvBin(OBvAdd, x, y)
+	case "sub":
+		r = tt.BvBin(OBvSub, x, y)
+	case "mul":
+		r = tt.BvBin(OBvMul, x, y)
+	case "and":
+		r = tt.BvBin(OBvAnd, x, y)
+	case "or":
+		r = tt.BvBin(OBvOr, x, y)
+	case "xor":
+		r = tt.BvBin(OBvXor, x, y)
+	case "not":
+		r = tt.BvNot(x)
+	case "shl": // x = value, y = shift
+		r = tt.BvBin(OBvShl, x, y)
+	case "lshr":
+		r = tt.BvBin(OBvLshr, x, y)
+	case "ashr":
+		r = tt.BvBin(OBvAshr, x, y)
+	case "ult":
+		r = b(tt.BvCmp(OBvUlt, x, y))
+	case "ugt":
+		r = b(tt.BvCmp(OBvUlt, y, x))
+	case "slt":
+		r = b(tt.BvCmp(OBvSlt, x, y))
+	case "sgt":
+		r = b(tt.BvCmp(OBvSlt, y, x))
+	case "eq":
+		r = b(tt.Eq(x, y))
+	case "iszero":
+		r = b(tt.Eq(x, tt.BVu(256, 0)))
+	case "byte": // x = index, y = word
+		sh := tt.BvBin(OBvMul, tt.BVu(256, 8), tt.BvBin(OBvSub, tt.BVu(256, 31), x))
+		v := tt.BvBin(OBvAnd, tt.BvBin(OBvLshr, y, sh), tt.BVu(256, 0xff))
+		r = tt.Ite(tt.BvCmp(OBvUlt, x, tt.BVu(256, 32)), v, tt.BVu(256, 0))
+	case "signextend": // x = byte index, y = word
+		sh := tt.BvBin(OBvSub, tt.BVu(256, 248), tt.BvBin(OBvMul, tt.BVu(256, 8), x))
+		v := tt.BvBin(OBvAshr, tt.BvBin(OBvShl, y, sh), sh)
+		r = tt.Ite(tt.BvCmp(OBvUlt, x, tt.BVu(256, 31)), v, y)
+	default:
+		panic(engineError{"BV256: unknown op " + op})
+	}
+	return bigV{t: tt.ZExt(e.BigW-256, r), bits: 256, nn: true}
 }
